@@ -219,15 +219,21 @@ Proof.
   destruct (filter_single_in _ _ _ _ Hf) as [Hdin Hdc].
   unfold of_class in Hdc. apply N.eqb_eq in Hdc.
   split; [|split; assumption].
-  unfold thunk_arg, cast_choice.
+  assert (Hstatic : uses_optimal_cast k = true ->
+            (if static_cast_ok H f (sub_class s) D then CStatic else CDynamic) = cast_choice H f k (sub_class s) D).
+  { intros Hk. unfold cast_choice. destruct k; try discriminate; reflexivity. }
+  unfold thunk_arg.
   destruct (uses_optimal_cast k) eqn:Hk.
-  - destruct (static_cast_ok H f (sub_class s) D) eqn:Hok; unfold do_cast.
+  - rewrite <- (Hstatic eq_refl).
+    destruct (static_cast_ok H f (sub_class s) D) eqn:Hok; unfold do_cast.
     + rewrite Hk. apply static_downcast_contained; assumption.
     + apply dynamic_cast_unique; assumption.
-  - destruct (N.eqb (sub_class s) D) eqn:HBD; unfold do_cast.
-    + rewrite Hk. f_equal.
-      apply (In_filter_single _ _ _ s _ Hf Hs). unfold of_class. exact HBD.
-    + apply dynamic_cast_unique; assumption.
+  - destruct k; try discriminate; unfold cast_choice.
+    + destruct (N.eqb (sub_class s) D) eqn:HBD; unfold do_cast.
+      * cbn [uses_optimal_cast]. f_equal.
+        apply (In_filter_single _ _ _ s _ Hf Hs). unfold of_class. exact HBD.
+      * apply dynamic_cast_unique; assumption.
+    + unfold do_cast. apply dynamic_cast_unique; assumption.
 Qed.
 
 (** Converting the definition's view back to the method's class gives the
@@ -298,15 +304,16 @@ Theorem cast_choice_optimal : forall H f k B D,
   uses_optimal_cast k = true ->
   (cast_choice H f k B D = CStatic <-> static_cast_ok H f B D = true).
 Proof.
-  intros H f k B D Hk. unfold cast_choice. rewrite Hk.
-  destruct (static_cast_ok H f B D); split; intros Hx; try reflexivity; discriminate.
+  intros H f k B D Hk. unfold cast_choice.
+  destruct k; try discriminate;
+    destruct (static_cast_ok H f B D); split; intros Hx; try reflexivity; discriminate.
 Qed.
 
-Theorem cast_choice_shared : forall H f k B D,
-  uses_optimal_cast k = false ->
-  (cast_choice H f k B D = CStatic <-> B = D).
+Theorem cast_choice_shared : forall H f B D,
+  (cast_choice H f KShared B D = CStatic <-> B = D) /\
+  cast_choice H f KCShared B D = CDynamic.
 Proof.
-  intros H f k B D Hk. unfold cast_choice. rewrite Hk.
+  intros H f B D. unfold cast_choice. split; [|reflexivity].
   destruct (N.eqb B D) eqn:HBD.
   - apply N.eqb_eq in HBD. split; intros _; [exact HBD|reflexivity].
   - apply N.eqb_neq in HBD. split; intros Hx; [discriminate|contradiction].
